@@ -1,4 +1,5 @@
 import Dtr.Proofs.RowIt
+import Dtr.Proofs.AfterErrorBasic
 /-!
 # C04 — expressions that read outputs see the most recently read device values
 -/
@@ -156,5 +157,61 @@ theorem C04_missing_output_ctor (tc : TestCase) (outs : List OutEntry) (pairs : 
       have : s.name ∈ ms.filterMap id := List.mem_filterMap.mpr ⟨some s.name, hmem, rfl⟩
       rw [hf] at this; cases this
     | cons a as => exact ⟨_, Or.inl rfl⟩
+
+/-- **The outputs map behind an error item** (`RowIt.nextC`: the state of the code behind every item).  A call that
+*failed* refreshes nothing: the map is what it was.  An answer that was *read but refused* — wrong number or order of
+outputs, a virtual signal that cannot be evaluated — has been stored before it was examined: the map is that answer
+(`set_outputs` comes before `extract_output_values`).  So also behind an error item every expression is evaluated
+against the latest answer the driver gave to an output-reading call. -/
+theorem C04_outs_behind_error {δ : Type} (tc : TestCase) (drv : Driver δ) (fuel : Nat) (s s' : RowIt) (d d' : δ)
+    (e : IterErr) (c : Call) (h : s.nextC tc drv fuel d = .item (.err e) s' d' [c]) :
+    (∀ n, c.resp = .fail n → s'.ctx.outs = s.ctx.outs) ∧
+    (∀ outs, c.resp = .ok outs → s'.ctx.outs = outsOf outs) := by
+  unfold RowIt.nextC at h
+  cases hg : getRow tc fuel s with
+  | err e1 => simp [hg] at h
+  | panic m => simp [hg] at h
+  | fuel => simp [hg] at h
+  | none s1 => simp [hg] at h
+  | row ev sg =>
+    have hctx := getRow_ctx tc fuel s sg ev hg
+    simp only [hg] at h
+    by_cases hu : ev.upd = true
+    · simp only [hu, if_true] at h
+      cases hrw : drv.rw d ev.inputs with
+      | mk d1 resp =>
+        cases resp with
+        | fail n =>
+          simp only [hrw, NextOut.item.injEq, List.cons.injEq, and_true] at h
+          obtain ⟨_, h2, _, h4⟩ := h
+          subst h2; subst h4
+          exact ⟨fun _ _ => hctx.1, (fun _ hk => by cases hk)⟩
+        | ok outs =>
+          simp only [hrw] at h
+          split at h
+          · cases h
+          · simp only [NextOut.item.injEq, List.cons.injEq, and_true] at h
+            obtain ⟨_, h2, _, h4⟩ := h
+            subst h2; subst h4
+            refine ⟨(fun _ hk => by cases hk), ?_⟩
+            intro outs' ho
+            cases ho
+            simp only
+            unfold extractCtxAfter
+            split <;> rfl
+          · cases h
+    · simp only [hu, Bool.false_eq_true, if_false] at h
+      cases hwo : drv.wo d ev.inputs with
+      | mk d1 resp =>
+        cases resp with
+        | some n =>
+          simp only [hwo, NextOut.item.injEq, List.cons.injEq, and_true] at h
+          obtain ⟨_, h2, _, h4⟩ := h
+          subst h2; subst h4
+          exact ⟨fun _ _ => hctx.1, (fun _ hk => by cases hk)⟩
+        | none => simp [hwo] at h
+
+/-- an evaluation error refreshes nothing either: the outputs map behind it is the one before it -/
+theorem C04_outs_behind_eval_error (it : It) (c : Ctx) : (stepPost it c).2.outs = c.outs := (stepPost_fields it c).2.2
 
 end Dtr
